@@ -55,6 +55,7 @@ func setEngineEnv(dir string) {
 	environment.SetPathParamsDirectory(filepath.Join(dir, "path_params"))
 	environment.SetProcessorsDirectory(registryDir)
 	os.Setenv("LUNAR_STREAMS_ENABLED", "true")
+	os.Setenv("LUNAR_RETRY_REQUEST_TIMEOUT_SEC", "600")
 }
 
 // newEngine builds and initialises a real streams.Stream from files.
@@ -114,10 +115,19 @@ type respOutcome struct {
 
 // doResponse runs the response side of a transaction.
 func (e *engineEnv) doResponse(id, method, host, path string, status int, headers map[string]string) respOutcome {
+	return e.doResponseFull(id, id, method, host, path, status, headers)
+}
+
+// doResponseSeq is doResponse for a transaction that belongs to sequence seq.
+func (e *engineEnv) doResponseSeq(id, seq, method, host, path string, status int) respOutcome {
+	return e.doResponseFull(id, seq, method, host, path, status, nil)
+}
+
+func (e *engineEnv) doResponseFull(id, seq, method, host, path string, status int, headers map[string]string) respOutcome {
 	if headers == nil {
 		headers = map[string]string{}
 	}
-	m := lunarMessages.OnResponse{ID: id, SequenceID: id, Method: method, URL: host + path, Status: status,
+	m := lunarMessages.OnResponse{ID: id, SequenceID: seq, Method: method, URL: host + path, Status: status,
 		Headers: headers, RawBody: []byte{}}
 	api := streamtypes.NewResponseAPIStream(m, e.Shared)
 	fa := &streamconfig.StreamActions{Response: &streamconfig.ResponseStream{}}
